@@ -10,6 +10,10 @@ counts, lazily cached string hashes, the per-thread chunk cache hand-over) into 
 those of the serial reference execution; no panic; monitors: no chunk freed twice, no reference-count operation on
 a freed chunk (freed memory is poisoned 0xDD so that a dangling read is a wrong read).
 
+Layer L0 (supplementary, sampled): the L1 operation alphabet on 2-16 free-running threads, results compared with solo
+results -- the only layer in which the effect of a plain-memory data race can show (the controlled scheduler cannot split two
+plain accesses that lie between two intercepted operations).  It never decides the property.
+
 Layer L1: every interleaving of whole operations (2-3 threads x 1-2 ops, each interleaving in a fresh process so
 that process-wide lazily built state -- Globals::standard, method tables, static string hashes -- is first touched in
 every possible order): per-thread results equal the solo results.
@@ -47,10 +51,10 @@ def l2_specs(tier):
         add("str_hash", 1)
         # partial-order reduction (preempt only before an operation that a later operation of another thread conflicts
         # with): deeper bounds
-        add("chunk_share", 5, reduce=True)
-        add("chunk_share3", 5, reduce=True)
-        add("load_freeze_drop", 8, reduce=True)
-        add("handoff", 4, 3, reduce=True)
+        add("chunk_share", 4, reduce=True)
+        add("chunk_share3", 4, reduce=True)
+        add("load_freeze_drop", 6, reduce=True)
+        add("handoff", 3, 2, reduce=True)
         add("handoff3", 2, 2, reduce=True)
         add("handoff_rebuild", 3, 4, reduce=True)
         add("static_hash", 6, reduce=True)
@@ -175,7 +179,24 @@ def run(tier):
                 if got != want:
                     res.violation(f"C20:L1:differs:{op}", {"spec": s, "thread": t, "op": op, "solo": want, "got": got})
         l1_distinct.add(json.dumps([threads, s["order"]]))
+    # ---- L0 (supplementary, sampled, NOT part of the exhaustive claim): the operation alphabet under true parallelism
+    free_ops = ["empty_iter", "iter_shared", "load_call", "hash_values", "build_freeze_drop", "build_and_publish", "take_and_drop",
+                "record_enum", "type_compiled", "globals_ext"]
+    fspecs = [{"id": i, "layer": "free", "threads": t, "rounds": (600 if tier == "quick" else 6000), "ops": free_ops[k:] + free_ops[:k]}
+              for i, (t, k) in enumerate([(8, 0), (16, 3), (3, 5), (2, 0)])]
+    fouts = vlib.run_sut("c20", fspecs, shard=1, nproc=2, timeout=1800)
+    free_operations = 0
+    for s, o in zip(fspecs, fouts):
+        if "crash" in o or "panic" in o:
+            res.violation("C20:free-running:crash", {"spec": s, "out": {k: o[k] for k in o if k != "id"}})
+            continue
+        free_operations += o["operations"]
+        for b in o["mismatches"]:
+            res.violation(f"C20:free-running:differs:{b.get('op')}", {"spec": s, "mismatch": b})
     res.coverage = {
+        "free_running_sampled": {"operations": free_operations, "runs": len(fspecs),
+                                 "note": "supplementary smoke pass under true parallelism (OS scheduler); sampled, can only add alarms; "
+                                         "not counted in states/transitions and not part of the exhaustive claim"},
         "states": schedules + len(l1_distinct),
         "transitions": sum(pb["schedules"] * pb["max_points"] for pb in per_body.values()),
         "traces_validated_against_impl": schedules + len(l1_distinct),
